@@ -54,9 +54,202 @@ fn len_de_s(style: &str, bs: &[u8]) -> String {
     fixed!(0, 1, 2, 3, 4, 5, 6, 7, 8, 9, 10, 11, 12, 13, 14, 15, 16, 17)
 }
 
+use chrono::{Datelike, NaiveDate, NaiveDateTime, Timelike};
+use zvt::feig::packets::tlv::Custom;
+use zvt::packets::PartialReversalReceiptNo;
+use zvt_builder::encoding::{self, Encoding};
+use zvt_builder::Tag;
+
+fn p_enc_s(enc: &str, prim: &str, val: &str) -> String {
+    let val = val.to_string();
+    macro_rules! int {
+        ($e:ty, $t:ty) => {
+            guarded(move || match val.parse::<$t>() {
+                Ok(v) => format!("Ok {}", hex(&<$e as Encoding<$t>>::encode(&v))),
+                Err(_) => "Unrepresentable".to_string(),
+            })
+        };
+    }
+    macro_rules! strg {
+        ($e:ty) => {
+            guarded(move || match parse_str(&val) {
+                Some(v) => format!("Ok {}", hex(&<$e as Encoding<String>>::encode(&v))),
+                None => "Unrepresentable".to_string(),
+            })
+        };
+    }
+    match (enc, prim) {
+        ("Default", "u8") => int!(encoding::Default, u8),
+        ("Default", "u16") => int!(encoding::Default, u16),
+        ("Default", "u32") => int!(encoding::Default, u32),
+        ("Default", "u64") => int!(encoding::Default, u64),
+        ("Default", "usize") => int!(encoding::Default, usize),
+        ("BigEndian", "u8") => int!(encoding::BigEndian, u8),
+        ("BigEndian", "u16") => int!(encoding::BigEndian, u16),
+        ("BigEndian", "u32") => int!(encoding::BigEndian, u32),
+        ("BigEndian", "u64") => int!(encoding::BigEndian, u64),
+        ("BigEndian", "usize") => int!(encoding::BigEndian, usize),
+        ("Bcd", "u8") => int!(encoding::Bcd, u8),
+        ("Bcd", "u16") => int!(encoding::Bcd, u16),
+        ("Bcd", "u32") => int!(encoding::Bcd, u32),
+        ("Bcd", "u64") => int!(encoding::Bcd, u64),
+        ("Bcd", "usize") => int!(encoding::Bcd, usize),
+        ("ReceiptNo", "usize") => int!(PartialReversalReceiptNo, usize),
+        ("Default", "String") => strg!(encoding::Default),
+        ("Hex", "String") => strg!(encoding::Hex),
+        ("Utf8", "String") => strg!(encoding::Utf8),
+        ("Custom", "Bytes") => guarded(move || {
+            format!("Ok {}", hex(&<Custom as Encoding<Vec<u8>>>::encode(&unhex(&val[2..]))))
+        }),
+        ("Default", "DateTime") => guarded(move || match parse_date(&val) {
+            Some(v) => format!("Ok {}", hex(&<encoding::Default as Encoding<NaiveDateTime>>::encode(&v))),
+            None => "Unrepresentable".to_string(),
+        }),
+        _ => panic!("no such impl {enc} {prim}"),
+    }
+}
+
+pub fn parse_str(v: &str) -> Option<String> {
+    let body = &v[2..];
+    if body == "-" {
+        return Some(String::new());
+    }
+    let mut s = String::new();
+    for cp in body.split('.') {
+        s.push(char::from_u32(u32::from_str_radix(cp, 16).ok()?)?);
+    }
+    Some(s)
+}
+
+pub fn show_str(s: &str) -> String {
+    if s.is_empty() {
+        return "s:-".to_string();
+    }
+    format!("s:{}", s.chars().map(|c| format!("{:x}", c as u32)).collect::<Vec<_>>().join("."))
+}
+
+pub fn parse_date(v: &str) -> Option<NaiveDateTime> {
+    let p: Vec<i64> = v[2..].split(',').map(|x| x.parse().unwrap()).collect();
+    NaiveDate::from_ymd_opt(p[0] as i32, p[1] as u32, p[2] as u32)?.and_hms_opt(p[3] as u32, p[4] as u32, p[5] as u32)
+}
+
+pub fn show_date(d: &NaiveDateTime) -> String {
+    format!("d:{},{},{},{},{},{}", d.year(), d.month(), d.day(), d.hour(), d.minute(), d.second())
+}
+
+fn p_dec_s(enc: &str, prim: &str, bs: &[u8]) -> String {
+    let bs = bs.to_vec();
+    macro_rules! int {
+        ($e:ty, $t:ty) => {
+            guarded(move || match <$e as Encoding<$t>>::decode(&bs) {
+                Ok((v, r)) => format!("Ok {} {}", v, hex(r)),
+                Err(e) => zerr(&e),
+            })
+        };
+    }
+    macro_rules! strg {
+        ($e:ty) => {
+            guarded(move || match <$e as Encoding<String>>::decode(&bs) {
+                Ok((v, r)) => format!("Ok {} {}", show_str(&v), hex(r)),
+                Err(e) => zerr(&e),
+            })
+        };
+    }
+    match (enc, prim) {
+        ("Default", "u8") => int!(encoding::Default, u8),
+        ("Default", "u16") => int!(encoding::Default, u16),
+        ("Default", "u32") => int!(encoding::Default, u32),
+        ("Default", "u64") => int!(encoding::Default, u64),
+        ("Default", "usize") => int!(encoding::Default, usize),
+        ("BigEndian", "u8") => int!(encoding::BigEndian, u8),
+        ("BigEndian", "u16") => int!(encoding::BigEndian, u16),
+        ("BigEndian", "u32") => int!(encoding::BigEndian, u32),
+        ("BigEndian", "u64") => int!(encoding::BigEndian, u64),
+        ("BigEndian", "usize") => int!(encoding::BigEndian, usize),
+        ("Bcd", "u8") => int!(encoding::Bcd, u8),
+        ("Bcd", "u16") => int!(encoding::Bcd, u16),
+        ("Bcd", "u32") => int!(encoding::Bcd, u32),
+        ("Bcd", "u64") => int!(encoding::Bcd, u64),
+        ("Bcd", "usize") => int!(encoding::Bcd, usize),
+        ("ReceiptNo", "usize") => int!(PartialReversalReceiptNo, usize),
+        ("Default", "String") => strg!(encoding::Default),
+        ("Hex", "String") => strg!(encoding::Hex),
+        ("Utf8", "String") => strg!(encoding::Utf8),
+        ("Custom", "Bytes") => guarded(move || match <Custom as Encoding<Vec<u8>>>::decode(&bs) {
+            Ok((v, r)) => format!("Ok b:{} {}", hex(&v), hex(r)),
+            Err(e) => zerr(&e),
+        }),
+        ("Default", "DateTime") => guarded(move || match <encoding::Default as Encoding<NaiveDateTime>>::decode(&bs) {
+            Ok((v, r)) => format!("Ok {} {}", show_date(&v), hex(r)),
+            Err(e) => zerr(&e),
+        }),
+        _ => panic!("no such impl {enc} {prim}"),
+    }
+}
+
+fn tag_enc_s(big: bool, t: u16) -> String {
+    guarded(move || {
+        let b = if big {
+            <encoding::BigEndian as Encoding<Tag>>::encode(&Tag(t))
+        } else {
+            <encoding::Default as Encoding<Tag>>::encode(&Tag(t))
+        };
+        format!("Ok {}", hex(&b))
+    })
+}
+
+fn tag_dec_s(big: bool, bs: &[u8]) -> String {
+    let bs = bs.to_vec();
+    guarded(move || {
+        let r = if big {
+            <encoding::BigEndian as Encoding<Tag>>::decode(&bs)
+        } else {
+            <encoding::Default as Encoding<Tag>>::decode(&bs)
+        };
+        match r {
+            Ok((t, r)) => format!("Ok {} {}", t.0, hex(r)),
+            Err(e) => zerr(&e),
+        }
+    })
+}
+
 fn main() {
     silence_panics();
     run_cases(|f, emit| match f[0] {
+        // p_enc <enc> <prim> <value>      p_dec <enc> <prim> <hex>
+        "p_enc" => emit(p_enc_s(f[1], f[2], f[3])),
+        "p_dec" => emit(p_dec_s(f[1], f[2], &unhex(f[3]))),
+        // p_enc_range <enc> <prim> <from> <to>
+        "p_enc_range" => {
+            let (a, b): (u64, u64) = (f[3].parse().unwrap(), f[4].parse().unwrap());
+            for n in a..=b {
+                emit(p_enc_s(f[1], f[2], &n.to_string()));
+            }
+        }
+        // p_dec_all <enc> <prim> <k>: every k-byte string
+        "p_dec_all" => {
+            let k: u32 = f[3].parse().unwrap();
+            for i in 0..(1u64 << (8 * k)) {
+                let bs: Vec<u8> = (0..k).map(|j| (i >> (8 * (k - 1 - j))) as u8).collect();
+                emit(p_dec_s(f[1], f[2], &bs));
+            }
+        }
+        "tag_enc" => emit(tag_enc_s(f[1] == "1", f[2].parse().unwrap())),
+        "tag_enc_all" => {
+            for t in 0..=65535u16 {
+                emit(tag_enc_s(f[1] == "1", t));
+            }
+        }
+        "tag_dec" => emit(tag_dec_s(f[1] == "1", &unhex(f[2]))),
+        "tag_dec_all" => {
+            let k: u32 = f[2].parse().unwrap();
+            let suffix = unhex(f[3]);
+            for i in 0..(1u64 << (8 * k)) {
+                let mut bs: Vec<u8> = (0..k).map(|j| (i >> (8 * (k - 1 - j))) as u8).collect();
+                bs.extend_from_slice(&suffix);
+                emit(tag_dec_s(f[1] == "1", &bs));
+            }
+        }
         // len_ser <style> <n>
         "len_ser" => emit(len_ser_s(f[1], f[2].parse().unwrap())),
         // len_ser_range <style> <from> <to>   (inclusive)
